@@ -456,6 +456,33 @@ def f_ent_keys_types(vmf: VMF) -> None:
     vmf.create_ent('typed', vec=Vec(1.5, -2, 3), flag=True, num=5, flt=0.125, ang=Angle(0, 270, 15))
 
 
+def f_face_big_ints(vmf: VMF) -> None:
+    # integer fields are written as plain integers of any size (smoothing groups are a bit mask; Hammer++ uses wide lightmap scales)
+    s = first_solid(vmf)
+    s.sides[2].smooth = 2 ** 53 + 1
+    s.sides[3].smooth = 2 ** 31
+    s.sides[4].lightmap = 2 ** 62 + 3
+    s.sides[5].smooth = 4294967295
+    vmf.grid_spacing = 2 ** 54 + 1
+    vmf.map_ver = 2 ** 60 + 12345
+
+
+def f_face_axis_nonunit(vmf: VMF) -> None:
+    # texture axes need not be unit vectors (skewed / scaled by a tool)
+    s = first_solid(vmf)
+    s.sides[4].uaxis = UVAxis(1.2345678, -123.456789, 2.5, offset=1000.123456, scale=0.25)
+    s.sides[4].vaxis = UVAxis(-17.0000004, 0.0001234567, 100000.25, offset=-0.5, scale=-1.0)
+
+
+def f_strata_views_far(vmf: VMF) -> None:
+    vmf.strata_viewports = [
+        Strata2DViewport('x', 70000.0, -98304.0, 1.0),
+        Strata2DViewport('y', -65537.0, 12.0, 0.25),
+        Strata2DViewport('z', 3.0, 131072.5, 8.0),
+        Strata3DViewport(Vec(70000, -98304, 65536), Angle(0, 90, 0)),
+    ]
+
+
 FEATURES: list[tuple[str, Callable[[VMF], None]]] = [(f.__name__[2:], f) for f in [
     f_ent_plain, f_ent_special_values, f_ent_special_keys, f_out_esc, f_out_comma, f_out_inst, f_out_param_comma,
     f_out_delay_frac, f_out_special, f_fixup_one, f_fixup_collide, f_fixup_quote, f_fixup_whitespace, f_ent_hidden, f_brush_ent,
@@ -464,6 +491,7 @@ FEATURES: list[tuple[str, Callable[[VMF], None]]] = [(f.__name__[2:], f) for f i
     f_visgroup_membership, f_vis_flags, f_groups, f_camera_one, f_camera_two, f_cordon_one, f_cordon_two, f_strata_views,
     f_strata_views_zero, f_strata_inst_vis, f_view_flags, f_comments, f_logical_pos, f_editor_colors, f_quickhide, f_versions,
     f_cordon_solid, f_worldspawn_keys, f_worldspawn_editor, f_node_ids, f_zero_ids, f_out_negzero_delay, f_ent_keys_types,
+    f_face_big_ints, f_face_axis_nonunit, f_strata_views_far,
 ]]
 FEATURE_MAP = dict(FEATURES)
 
